@@ -3,6 +3,8 @@ package pebbles
 import (
 	"encoding/json"
 
+	"github.com/buildbuildio/pebbles/planner"
+
 	"github.com/vektah/gqlparser/v2"
 )
 
@@ -29,7 +31,12 @@ func vUpstreamStartQuery(up *vConn) string {
 }
 
 func VerifEvents() {
-	f := vNewSubFed(vSubWorld(), nil)
+	var opts []GatewayOption
+	cached := verifParam("cached", 0) == 1
+	if cached {
+		opts = append(opts, WithPlanner(planner.NewCachedPlanner(1000000000)))
+	}
+	f := vNewSubFed(vSubWorld(), opts)
 	client := vNewConn("client")
 	nsubs := 1 + verifChoice("subs", verifParam("maxsubs", 2))
 	subs := make([]vSubScript, nsubs)
@@ -54,6 +61,10 @@ func VerifEvents() {
 				subs[i].events = append(subs[i].events, "partial:h1") // data next to errors
 			}
 		}
+	}
+	if cached && nsubs == 2 {
+		// recorded finding: the first subscription strips the dependent steps off the plan object the cache shares
+		verifKnown("C14-subscription-strips-cached-plan", subs[0].query == subs[1].query)
 	}
 	vWs = &vWsWorld{client: client}
 	done := make(chan struct{}, 8)
